@@ -133,12 +133,18 @@ def verify_function(table, reg, qual, cls, props, timeout_ms=None):
         outs = stmts.exec_block(eng, f.body, st)
         eng.paths = len(outs)
         normal_allowed = allowed_set(eng, c.modifies + [p for p, _ in c.ghost_exit], env, old)
-        if c.on_raise == "unchanged":
-            exc_allowed = set()
-        elif c.on_raise == "any":
-            exc_allowed = normal_allowed
+        def exc_frame(spec):
+            if spec == "unchanged":
+                return set()
+            if spec == "any":
+                return normal_allowed
+            return allowed_set(eng, list(spec), env, old)
+        if isinstance(c.on_raise, dict):
+            exc_allowed_by = {k: exc_frame(v) for k, v in c.on_raise.items()}
+            exc_allowed = None
         else:
-            exc_allowed = allowed_set(eng, list(c.on_raise), env, old)
+            exc_allowed_by = {}
+            exc_allowed = exc_frame(c.on_raise)
         n_normal = n_raise = 0
         for s, ctl in outs:
             if ctl[0] in ("next", "return"):
@@ -170,8 +176,14 @@ def verify_function(table, reg, qual, cls, props, timeout_ms=None):
                 if normal_allowed is not None:
                     frame_obligations(eng, "frame", s, old, normal_allowed)
             elif ctl[0] == "raise":
-                n_raise += 1
                 exc = ctl[1]
+                if not eng.feasible(s):
+                    # the raising path is infeasible (quantifier-free part of its condition is
+                    # already contradictory): nothing to check
+                    res.setdefault("infeasible_raise_paths", 0)
+                    res["infeasible_raise_paths"] += 1
+                    continue
+                n_raise += 1
                 clauses = [(e, cd) for e, cd in list(c.raises) + list(c.may_raise) if exc_is(exc.cls, e)]
                 if exc.origin == "implicit":
                     name = "noexc.%s" % exc.site if not clauses else "raises.%s" % exc.cls
@@ -184,8 +196,15 @@ def verify_function(table, reg, qual, cls, props, timeout_ms=None):
                 else:
                     g = z3.BoolVal(False)
                 status = eng.oblige(name, "raises", s, g, eval_terms=witness_terms(eng, env, old))
-                if exc_allowed is not None:
-                    frame_obligations(eng, "excframe.%s" % exc.cls, s, old, exc_allowed, kind="excframe")
+                ea = exc_allowed
+                if exc_allowed_by:
+                    ea = set()      # default for a class not listed: strict frame
+                    for k2, v2 in exc_allowed_by.items():
+                        if exc_is(exc.cls, k2):
+                            ea = v2
+                            break
+                if ea is not None:
+                    frame_obligations(eng, "excframe.%s" % exc.cls, s, old, ea, kind="excframe")
                 for i, cl in enumerate(c.exc_ensures):
                     g = eng.spec_eval(cl, s, old=old, env=env)
                     eng.oblige("excpost.%s.%d" % (exc.cls, i), "post", s, g)
